@@ -175,3 +175,12 @@ Qed.
 
 Lemma oinv_false ro : oinv false ro.
 Proof. intros T; discriminate. Qed.
+
+(* clause 12 *)
+Theorem trace_target fx ops : forall s, W s -> evict_target (obs_from fx s ops).
+Proof.
+  induction ops as [|op t IH]; intros s HW o e I; [destruct I|].
+  rewrite obs_from_cons in I. destruct I as [<-|I].
+  - cbn [obs_of o_effs]. apply step_target; auto.
+  - apply (IH (fst (step fx s op))); auto. apply W_step; auto.
+Qed.
